@@ -217,6 +217,11 @@ def judge(op, got, ref_bool, ref_list):
     want = "found" if rb[1] else "notfound"
     if fclass == "log" and status != 0:
         return out  # the invocation failed in its logging set-up: allowed
+    if "PATH" not in (op.get("env") or {"PATH": 1}) and status != 0 and verdict is None and not addrs:
+        # variables of the harness's guess list (JASM_CONFIG, JASM_OPTS, ...): a command that knows one of them and
+        # refuses its (deliberately useless) value loudly - no verdict, no address, non-zero status - reports nothing
+        # that differs from the library; honouring it with another verdict or other addresses is what is flagged below
+        return out
     if verdict != want:
         v("verdict-differs-from-library", f"`jasm {' '.join(op['argv'])}` exit {status} verdict {verdict!r}, library says {want} ({len(rl[1])} address(es))")
     elif addrs != rl[1]:
